@@ -45,6 +45,10 @@ func TestVsReplayC14(t *testing.T) {
 	case strings.Contains(m.Obligation, "GenerateNewPublicKey"):
 		reader = func() { kmc.GenerateNewPublicKey() }
 		writer = func() { kmc.NextAddresses(acct, false, 1) }
+	case strings.Contains(m.Obligation, "updateManagedAddress"):
+		am := kmc.GetManagedAddrManager()[0]
+		reader = func() { am.ListAddresses(); am.CountAddresses() }
+		writer = func() { kmc.NextAddresses(acct, false, 1) }
 	case strings.Contains(m.Obligation, "Remarks"):
 		am := kmc.GetManagedAddrManager()[0]
 		reader = func() { _ = am.Remarks() }
